@@ -267,7 +267,7 @@ def check_c07(prop, tier, seed):
                      extra=[(programs.guards, dict(pb=2, max_exec=3000 if q else 30000)),
                             (programs.handover, dict(pb=1 if q else 2, max_exec=1500 if q else 10000))])
     plan.append(('opt', programs.opt_basic() + programs.opt_prepare() + programs.opt_version(), dict(pb=2, max_exec=2000 if q else 30000)))
-    res = lock_abs_check(prop, tier, seed, ['CkGuards', 'CkProgress'], plan)
+    res = lock_abs_check(prop, tier, seed, ['CkGuards', 'CkProgress', 'CkCompat'], plan)
     res['assumptions'] = LOCK_ASSUME + ['a grant that is never released, or released twice, shows up as a guard boolean that '
                                         'disagrees with ownership or as a final exclusive probe that cannot be granted']
     return res
@@ -300,7 +300,7 @@ def opt_plan(tier, seed):
 
 @register('C03')
 def check_c03(prop, tier, seed):
-    res = lock_abs_check(prop, tier, seed, ['CkOptimistic'], opt_plan(tier, seed))
+    res = lock_abs_check(prop, tier, seed, ['CkOptimistic', 'CkCompat'], opt_plan(tier, seed))
     res['assumptions'] = LOCK_ASSUME + ['SetVersion republishing an earlier value only in the programs that say so']
     return res
 
@@ -322,7 +322,7 @@ def check_c13(prop, tier, seed):
             ('opt', programs.cross3('opt', ('PRV',), ('X', 'DNG', 'XSV', 'UPG', 'DNUP'), ('S', 'SIX', 'X', 'PRV')),
              dict(pb=1 if q else 2, max_exec=800 if q else 20000)),
             ('opt', programs.opt_prepare() + programs.opt_mix3(), dict(pb=2 if q else 3, max_exec=3000 if q else 40000))]
-    res = lock_abs_check(prop, tier, seed, ['CkPrepare', 'CkOptimistic', 'CkGuards', 'CkProgress'], plan)
+    res = lock_abs_check(prop, tier, seed, ['CkPrepare', 'CkOptimistic', 'CkGuards', 'CkProgress', 'CkCompat'], plan)
     res['assumptions'] = LOCK_ASSUME + ['the harness builds the library with CPP_UTILITY_SPINLOCK_RETRY_NUM=1, so PrepareRead makes '
                                         'two optimistic attempts before its locking fallback']
     return res
@@ -1259,13 +1259,13 @@ def wrap_l2(prop, classes, group, want, b2):
 ALL3 = ('pess', 'opt', 'mcs')
 wrap_l2('C01', ALL3, 'safety', {'Compat', 'WordOK'}, b2_lock_abs(['CkCompat']))
 wrap_l2('C02', ALL3, 'safety', {'NoDeadlock', 'FreeAtEnd', 'Termination'}, b2_lock_abs(['CkProgress']))
-wrap_l2('C03', ('opt',), 'safety', {'OptSound', 'OptComplete', 'SampleOK'}, b2_lock_abs(['CkOptimistic']))
+wrap_l2('C03', ('opt',), 'safety', {'OptSound', 'OptComplete', 'SampleOK'}, b2_lock_abs(['CkOptimistic', 'CkCompat']))
 wrap_l2('C08', ALL3, 'hb', {'HB'}, b2_hb)
 wrap_l2('C09', ('opt',), 'safety', {'VerOK', 'WordOK'}, b2_lock_abs(['CkVersion', 'CkProgress']))
 wrap_l2('C10', ALL3, 'safety', {'Compat', 'WordOK'}, b2_lock_abs(['CkConvAtomic', 'CkCompat']))
 wrap_l2('C11', ('mcs',), 'safety', {'Fifo'}, b2_lock_abs(['CkFifo'], fifo=True))
 wrap_l2('C12', ('mcs',), 'safety', {'NodeSafe', 'GuardNodes', 'LiveBound', 'FreeAtEnd'}, b2_nodes)
-wrap_l2('C13', ('opt',), 'safety', {'PrepareOK', 'SampleOK', 'Compat'}, b2_lock_abs(['CkPrepare', 'CkOptimistic', 'CkGuards', 'CkProgress']))
+wrap_l2('C13', ('opt',), 'safety', {'PrepareOK', 'SampleOK', 'Compat'}, b2_lock_abs(['CkPrepare', 'CkOptimistic', 'CkGuards', 'CkProgress', 'CkCompat']))
 
 
 def add_level2_id(res, prop, tier, seed, want):
